@@ -36,7 +36,8 @@ EXPLANATION = ("Exhaustive sub-space (both tiers): ALL pairs (G,H) on a shared n
                "reactions (two reacting hydrogens on one atom, H2, spectator H2, %10 ring closures, explicit proton), each both as a graph "
                "pair and through the instrumented string pipeline (kinds str-*: the graphs of rsmi_to_graph, the ITS, the preserve list and "
                "the two graphs its_to_rsmi hands to GraphToMol, the two RWMol contents), and with rsmi_to_its(explicit_hydrogen=True) "
-               "(kinds str-eh-*: the explicit-hydrogen ITS of h_to_explicit, then the same pipeline); MolToGraph.transform under all four flag "
+               "(kinds str-eh-*: the explicit-hydrogen ITS of h_to_explicit, then the same pipeline) and with rsmi_to_its(core=True) / "
+               "its_to_rsmi(explicit_hydrogen=True) (kinds str-wopt-*); MolToGraph.transform under all four flag "
                "combinations on fragments with atoms unmapped / maps duplicated; implicit_hydrogen + GraphToMol on synthetic graphs with "
                "explicit hydrogens. Theorems: round trip, union + order pair + difference, equivariance, refutation without the "
                "shared-node-set precondition; the same for every option value and both store modes, the exact effect of "
@@ -70,7 +71,8 @@ TESTED_NOT_PROVED = [
     "its_to_rsmi(rsmi_to_its(r)) is atom-map-equivalent to r (ITS isomorphism, independent reading, modulo spectator explicit hydrogens) and has the "
     "same unmapped sides: oracle on every balanced, fully mapped corpus case, rewriting and hand-made reaction (RDKit contract R1 + totality of the writer)",
     "reactions with explicit reacting hydrogens end to end: the graph-level statements are theorems C01_implicit_hydrogen and C01_its_to_graphs, the "
-    "string-level conclusion (C01_rsmi_pipeline) is proved only for reactions without explicit hydrogen atoms",
+    "string-level conclusion (C01_rsmi_pipeline) is proved only for reactions without explicit hydrogen atoms (for the writer option "
+    "explicit_hydrogen=True it is proved for all balanced reactions: C01_rsmi_pipeline_explicit)",
     "implicit_hydrogen keeps every non-hydrogen atom's total H on graphs whose hydrogens have one bond: oracle on every ih case (theorem C01_implicit_hydrogen for all well-formed graphs)",
 ]
 LEVEL_TEXT = ("Machine-checked proof (Coq) over an executable model of ITSConstruction.construct/ITSGraph and its_decompose: for all well-formed "
@@ -117,6 +119,8 @@ def impl(case):
     k = case.get("kind", "")
     if k.startswith("str-eh"):
         return T.obs_pipeline_eh(case["rsmi"])
+    if k.startswith("str-wopt"):
+        return T.obs_pipeline_opts(case["rsmi"])
     if k.startswith("str-"):
         return T.obs_pipeline(case["rsmi"])
     if k == "m2g":
@@ -143,7 +147,7 @@ def coq_case(case):
     k = case.get("kind", "")
     try:
         if k.startswith("str-"):
-            return T.coq_pipeline(case["rsmi"], k.startswith("str-eh")) if R.well_formed(case["rsmi"]) else None
+            return T.coq_pipeline(case["rsmi"], k.startswith("str-eh"), k.startswith("str-wopt")) if R.well_formed(case["rsmi"]) else None
         if k == "m2g":
             return T.coq_m2g(case["smiles"], case["drop"], case["use"])
         if k == "ih":
@@ -270,7 +274,7 @@ def fold_spectator_h(A, B):
     return (na, ea), (nb, eb)
 
 
-def string_clauses(rsmi, G, H, explicit_hydrogen=False):
+def string_clauses(rsmi, G, H, explicit_hydrogen=False, write_explicit=False):
     """parser monitor + its_to_rsmi(rsmi_to_its(r)) ~ r; demanded only for balanced, fully and uniquely mapped reactions"""
     import networkx as nx
     from synkit.IO.chem_converter import rsmi_to_its, its_to_rsmi
@@ -286,7 +290,10 @@ def string_clauses(rsmi, G, H, explicit_hydrogen=False):
             dn = {k: (got.get(k), Y[0].get(k)) for k in set(got) | set(Y[0]) if got.get(k) != Y[0].get(k)}
             fails.append(dict(clause="parse-monitor", detail="%s graph of rsmi_to_graph differs from the independent RDKit reading: %r" % (side, dn)))
             return fails, True
-    back = its_to_rsmi(rsmi_to_its(rsmi, explicit_hydrogen=True)) if explicit_hydrogen else its_to_rsmi(rsmi_to_its(rsmi))
+    if write_explicit:
+        back = its_to_rsmi(rsmi_to_its(rsmi), explicit_hydrogen=True)
+    else:
+        back = its_to_rsmi(rsmi_to_its(rsmi, explicit_hydrogen=True)) if explicit_hydrogen else its_to_rsmi(rsmi_to_its(rsmi))
     if not isinstance(back, str) or back.count(">>") != 1:
         fails.append(dict(clause="string-roundtrip", detail="its_to_rsmi returned %r" % (back,)))
         return fails, True
@@ -355,7 +362,10 @@ def oracle(case):
     G, H = gh
     if case.get("kind", "").startswith("str-"):
         if R.well_formed(case["rsmi"]):
-            f2, _ = string_clauses(case["rsmi"], G, H, case["kind"].startswith("str-eh"))
+            f2, _ = string_clauses(case["rsmi"], G, H, case["kind"].startswith("str-eh"), case["kind"].startswith("str-wopt"))
+            if case["kind"].startswith("str-wopt"):
+                for f in f2:
+                    f["clause"] = "wopt-" + f["clause"]
             if case["kind"].startswith("str-eh"):
                 for f in f2:           # one defect, one key: rsmi_to_its(explicit_hydrogen=True) (see known_findings.d/C01.json)
                     f["clause"] = "eh-" + f["clause"]
@@ -714,6 +724,7 @@ def gen_str(rsmi_cases, rng, n_exph):
     for c in rsmi_cases:                                       # rsmi_to_its(explicit_hydrogen=True) on the corpus and one rewriting
         if "rsmi" in c and "opts" not in c and c["kind"] in ("corpus", "rw-renum"):
             cases.append(dict(kind="str-eh-" + c["kind"], rsmi=c["rsmi"], src=c.get("src")))
+            cases.append(dict(kind="str-wopt-" + c["kind"], rsmi=c["rsmi"], src=c.get("src")))
     pool = [c for c in rsmi_cases if c.get("kind") == "corpus"]
     rng.shuffle(pool)
     k = 0
@@ -745,6 +756,7 @@ def gen_str(rsmi_cases, rng, n_exph):
         cases.append(dict(kind="hand", rsmi=r, src="hand#%d" % i))
         cases.append(dict(kind="str-hand", rsmi=R.renumber_maps(r, rng), src="hand#%d-renum" % i))
         cases.append(dict(kind="str-eh-hand", rsmi=r, src="hand#%d" % i))
+        cases.append(dict(kind="str-wopt-hand", rsmi=r, src="hand#%d" % i))
     return cases
 
 
